@@ -32,11 +32,21 @@ pub enum EvEdit {
     FullRing,
     AllChannels { board: u16, chip: u8 },
     Suppressed16 { board: u8, channel: u8 },
+    /// a 16-byte suppressed packet for a wire that also has a data packet in the event
+    SuppressedExisting { w: u16 },
     /// copy pad p's waveform onto `n` neighbouring rows above it (identical raw
     /// waveforms on adjacent pads: a saturated or test-pattern chip)
     ClonePadRows { p: u16, n: u8 },
     /// copy wire w's waveform onto `n` following wires
     CloneWires { w: u16, n: u8 },
+}
+
+fn suppressed16(board: u8, channel: u8) -> Vec<u8> {
+    oracles::adc::AdcModel {
+        ptype: 1, version: 3, accepted_trigger: 1, module: board, channel: 128 + channel, requested: 699, ts_lsw: 7, short_form: true,
+        zero: [0, 0], mac: [0; 6], ts_msw: 0, trig_offset: 0, build_ts: 0, samples: vec![], keep_last: 0, keep_bit: false, suppression: true, unused: 0, baseline: 0, extra: vec![],
+    }
+    .encode()
 }
 
 fn ev_edit(tier: Tier) -> impl Strategy<Value = EvEdit> {
@@ -51,6 +61,7 @@ fn ev_edit(tier: Tier) -> impl Strategy<Value = EvEdit> {
         1 => Just(EvEdit::FullRing),
         2 => (any::<u16>(), 0u8..4).prop_map(|(board, chip)| EvEdit::AllChannels { board, chip }),
         1 => (0u8..8, 0u8..32).prop_map(|(board, channel)| EvEdit::Suppressed16 { board, channel }),
+        1 => any::<u16>().prop_map(|w| EvEdit::SuppressedExisting { w }),
         3 => (any::<u16>(), 1u8..6).prop_map(|(p, n)| EvEdit::ClonePadRows { p, n }),
         2 => (any::<u16>(), 1u8..12).prop_map(|(w, n)| EvEdit::CloneWires { w, n }),
     ]
@@ -133,6 +144,12 @@ impl C09Case {
                         let n = ev.pad_samples;
                         let ch = (1..=79u16).map(|c| (c, (0..n as u64).map(|t| PAD_BASELINE_SIM - (crate::props::mix(c as u64, t) % 300) as i16).collect())).collect();
                         extra.extend(pwb_banks(b, chip, ch, n, ev.chunk_size));
+                    }
+                }
+                EvEdit::SuppressedExisting { w } if !ev.wires.is_empty() => {
+                    let wire = ev.wires[pick(w, ev.wires.len())].wire as usize;
+                    if let Some((board, channel)) = geo.wire[wire] {
+                        extra.push((wire_bank_name(board, channel), suppressed16(board as u8, channel)));
                     }
                 }
                 EvEdit::Suppressed16 { board, channel } => {
